@@ -67,6 +67,17 @@ def fetch_surfaces(path):
     return out
 
 
+def surface_bound_violations(surfaces):
+    """the hypothesis of theorem C07_pretest: the extrema used by the global pre-test contain every nodal value of the
+    triangulation (otherwise the pre-test rejects depths the local test accepts); returns [(key, min, max, lo, hi)]"""
+    bad = []
+    for key, s in (surfaces or {}).items():
+        vals = [v[2] for t in s["tris"] for v in t]
+        if vals and (min(vals) < s["min"] or max(vals) > s["max"]):
+            bad.append((key, s["min"], s["max"], min(vals), max(vals)))
+    return bad
+
+
 class CaseSet:
     def __init__(self, tag):
         self.dir = os.path.join(common.WORK, "cases", "%s_%d" % (tag, os.getpid()))
@@ -78,6 +89,7 @@ class CaseSet:
         self.worlds = []     # (slot, wj, elab)
         self.model_ok = []   # per world: can the model evaluate it?
         self.has_lines = []  # per world: slabs/faults in the model (implementation side runs with the culling hook off)
+        self.surface_bounds = []   # (world, key, reported min, max, nodal min, max) where the pre-test extrema miss a nodal value
 
     def cleanup(self):
         if not os.environ.get("VERIF_KEEP"):
@@ -93,6 +105,9 @@ class CaseSet:
             surfaces = fetch_surfaces(path)
             if surfaces is None:
                 model = False
+            else:
+                for b in surface_bound_violations(surfaces):
+                    self.surface_bounds.append((wj,) + b)
         el = Elab(wj, surfaces)
         term = el.world() if model else None
         ok = model and el.unsupported is None
